@@ -81,6 +81,7 @@ type checkResult struct {
 	wall       float64
 	solverTime float64
 	knownCarve int
+	skipped    int
 }
 
 func cmdCheck(args []string) int {
@@ -163,7 +164,10 @@ func runCheck(o *checkOpts) *checkResult {
 	dischargeAll(res.obls, opt, 8)
 	for _, ob := range res.obls {
 		res.solverTime += ob.Time
-		ok := ob.Status == "proved"
+		ok := ob.Status == "proved" || ob.Status == "skipped"
+		if ob.Status == "skipped" {
+			res.skipped++
+		}
 		if ob.ExpectSat {
 			ok = ob.Status != "proved"
 			if ok {
@@ -280,8 +284,25 @@ func report(o *checkOpts, res *checkResult) int {
 			fmt.Printf("note: known finding %s: %s\n", hit.ID, status)
 		}
 	}
+	replays := 0
 	for _, ob := range violations {
-		rp := replayObligation(o, ob)
+		var rp map[string]any
+		if ob.Status == "failed" && ob.Output == "sat" {
+			replays++
+		}
+		if replays > 3 && ob.Status == "failed" && ob.Output == "sat" {
+			// three native replays per run are enough to show the failure; the
+			// remaining countermodels are reported without running them
+			rp = map[string]any{"obligation": ob.Name, "kind": ob.Kind, "function": ob.Func, "clause": ob.Src, "position": ob.Pos.String(),
+				"solver": ob.Solver, "solver_status": ob.Status, "solver_output": ob.Output, "confirmed": false,
+				"replay_note": "not replayed: three countermodels of this run were already replayed"}
+		} else {
+			t1 := time.Now()
+			rp = replayObligation(o, ob)
+			if os.Getenv("GOVC_TIMING") != "" {
+				fmt.Fprintf(os.Stderr, "TIMING replay %s %.1fs\n", ob.Name, time.Since(t1).Seconds())
+			}
+		}
 		path := writeReplay(o, prop, ob.Name, rp)
 		suffix := ""
 		if c, _ := rp["confirmed"].(bool); !c {
@@ -293,8 +314,11 @@ func report(o *checkOpts, res *checkResult) int {
 	if !o.noEvidence && o.prop != "" {
 		writeEvidence(o, res, kfs, len(violations))
 	}
+	if res.skipped > 0 {
+		fmt.Printf("skipped %d obligations after %d came back undischarged (the verdict is settled)\n", res.skipped, maxUndischarged)
+	}
 	fmt.Printf("property=%s tier=%s functions=%d obligations=%d discharged=%d known-findings=%d violations=%d wall=%.1fs\n",
-		prop, o.tier, len(res.vcs), len(res.obls), len(res.obls)-len(res.failed), len(res.known), len(violations), res.wall)
+		prop, o.tier, len(res.vcs), len(res.obls), len(res.obls)-len(res.failed)-res.skipped, len(res.known), len(violations), res.wall)
 	return exit
 }
 
